@@ -885,6 +885,35 @@ pub mod c04_pure {
         out
     }
 
+    /// `Malicious::new` whatever its arity: `(ctx, batch)` — the key is drawn by the constructor — or
+    /// `(ctx, key share, batch)` — a constructor that is handed its key (then the batch's own PRSS value is passed).
+    /// Keeps the harness compiling when the key schedule of the validator is refactored; the schedule itself is
+    /// checked by the translator items `c04.key.*` and by the suites `c04.rbatch` / `c04.adaptive`.
+    trait C04NewBatch<'a, F: ExtendableField, Args> {
+        fn c04_new(&self, ctx: MaliciousContext<'a, NotSharded>, offset: usize) -> Malicious<'a, F, NotSharded>;
+    }
+
+    impl<'a, F: ExtendableField, T> C04NewBatch<'a, F, (MaliciousContext<'a, NotSharded>, usize)> for T
+    where
+        T: Fn(MaliciousContext<'a, NotSharded>, usize) -> Malicious<'a, F, NotSharded>,
+    {
+        fn c04_new(&self, ctx: MaliciousContext<'a, NotSharded>, offset: usize) -> Malicious<'a, F, NotSharded> {
+            self(ctx, offset)
+        }
+    }
+
+    impl<'a, F: ExtendableField, T>
+        C04NewBatch<'a, F, (MaliciousContext<'a, NotSharded>, Replicated<F::ExtendedField>, usize)> for T
+    where
+        T: Fn(MaliciousContext<'a, NotSharded>, Replicated<F::ExtendedField>, usize) -> Malicious<'a, F, NotSharded>,
+        Replicated<F::ExtendedField>: FromPrss,
+    {
+        fn c04_new(&self, ctx: MaliciousContext<'a, NotSharded>, offset: usize) -> Malicious<'a, F, NotSharded> {
+            let r: Replicated<F::ExtendedField> = ctx.prss().generate(RecordId::from(3 * offset + 2));
+            self(ctx, r, offset)
+        }
+    }
+
     #[test]
     fn verif_c04_pure() {
         // one TestWorld (needs a runtime for its background tasks) and one real `Malicious` per field
@@ -892,10 +921,10 @@ pub mod c04_pure {
         let _guard = rt.enter();
         let world = TestWorld::<NotSharded>::default();
         let [c1, c2, c3]: [MaliciousContext<'_, NotSharded>; 3] = world.malicious_contexts();
-        let m25 = Malicious::<Fp25519, NotSharded>::new(c3.narrow("c04-fp25519").set_total_records(1usize), 0);
+        let m25 = Malicious::<Fp25519, NotSharded>::new.c04_new(c3.narrow("c04-fp25519").set_total_records(1usize), 0);
         let a25 = RefCell::new(m25.accumulator);
-        let m31 = Malicious::<Fp31, NotSharded>::new(c1.narrow("c04-fp31").set_total_records(1usize), 0);
-        let m32 = Malicious::<Fp32BitPrime, NotSharded>::new(c2.narrow("c04-fp32").set_total_records(1usize), 0);
+        let m31 = Malicious::<Fp31, NotSharded>::new.c04_new(c1.narrow("c04-fp31").set_total_records(1usize), 0);
+        let m32 = Malicious::<Fp32BitPrime, NotSharded>::new.c04_new(c2.narrow("c04-fp32").set_total_records(1usize), 0);
         let a31 = RefCell::new(m31.accumulator);
         let a32 = RefCell::new(m32.accumulator);
         run_suite("c04_pure", generate, |req| {
